@@ -412,7 +412,7 @@ const fixedDecls = `
 (define-fun wrap8 ((x Int)) Int (- (mod (+ x 128) 256) 128))
 (define-fun wrapu8 ((x Int)) Int (mod x 256))
 (define-fun go.div ((x Int) (y Int)) Int (ite (>= x 0) (ite (> y 0) (div x y) (- (div x (- y)))) (ite (> y 0) (- (div (- x) y)) (div (- x) (- y)))))
-(define-fun go.rem ((x Int) (y Int)) Int (- x (* y (go.div x y))))
+(define-fun go.rem ((x Int) (y Int)) Int (ite (> y 0) (ite (>= x 0) (mod x y) (- (mod (- x) y))) (- x (* y (go.div x y)))))
 `
 
 // emitDecls renders all sort declarations (after execution, when the set is known).
